@@ -436,8 +436,22 @@ func (in *Interp) vsIntrinsic(name string, fn *ssa.Function, a []Value) (Value, 
 		id := in.tagOf(a[2])
 		xA, xo, xl := in.bytesOf(a[0])
 		yA, yo, yl := in.bytesOf(a[1])
-		k := c.Fresh("sk!"+id, smt.BVSort(64))
-		cond := c.And(c.Eq(xl, yl), c.Implies(c.Ult(k, xl), c.Eq(xA.Read(c, c.BVAdd(xo, k)), yA.Read(c, c.BVAdd(yo, k)))))
+		var cond *smt.Term
+		if xl.IsConst() && yl.IsConst() && xl.Uint64() <= maxCells {
+			// concrete lengths: element-wise conjunction (identical cells fold to true)
+			if xl.Uint64() != yl.Uint64() {
+				cond = c.False
+			} else {
+				conj := []*smt.Term{}
+				for i := uint64(0); i < xl.Uint64(); i++ {
+					conj = append(conj, c.Eq(xA.Read(c, c.BVAdd(xo, in.u64(i))), yA.Read(c, c.BVAdd(yo, in.u64(i)))))
+				}
+				cond = c.And(conj...)
+			}
+		} else {
+			k := c.Fresh("sk!"+id, smt.BVSort(64))
+			cond = c.And(c.Eq(xl, yl), c.Implies(c.Ult(k, xl), c.Eq(xA.Read(c, c.BVAdd(xo, k)), yA.Read(c, c.BVAdd(yo, k)))))
+		}
 		in.assertCond(cond, id, in.callerSite())
 		return nil, true
 	case "vsCover":
